@@ -38,9 +38,7 @@ func (f *clientHeartBeatProcessor) Process(ctx context.Context, rpcMessage messa
 			log.Debug("received PONG from {}", ctx)
 		}
 	}
-	msgFuture := getty.GetGettyRemotingClient().GetMessageFuture(rpcMessage.ID)
-	if msgFuture != nil {
-		getty.GetGettyRemotingClient().RemoveMessageFuture(rpcMessage.ID)
-	}
+	// a heartbeat is sent without a waiter and owns no pending future; its id comes from the handler's
+	// own counter, so an entry under that id belongs to an unrelated request and must stay
 	return nil
 }
